@@ -225,8 +225,10 @@ def run(prop, tier, seed, replay=None):
     n_exh, n_sim = (240, 160) if quick else (2400, 1600)
     common = dict(workers=6, final_polls=3)
 
+    phases = {}
     # 1. behaviours from the descriptive model
     g, n_wit, n_buckets, chosen, sim = generate(quick, seed, rnd, n_exh, n_sim)
+    phases["generate"] = round(time.time() - t0, 1)
     scripts = {}
     for pre, bs in (("w", chosen), ("s", sim)):
         for i, b in enumerate(bs):
@@ -238,8 +240,11 @@ def run(prop, tier, seed, replay=None):
     with ThreadPoolExecutor(max_workers=2) as ex:
         f_models = ex.submit(run_tlc_checks, quick, not quick)
         f_drv = ex.submit(vlib.run_driver_parallel, binary, dict(common, scripts=order), "scripts", 8, timeout=1500)
-        checks = f_models.result()
+        t1 = time.time()
         results = f_drv.result()
+        phases["driver"] = round(time.time() - t1, 1)
+        checks = f_models.result()
+        phases["driver+models"] = round(time.time() - t1, 1)
     models = []
     states = transitions = 0
     cover = {}
@@ -266,6 +271,7 @@ def run(prop, tier, seed, replay=None):
         raise Inconclusive("oracle self-test failed: a response whose timestamp was read after its rows was not reported "
                            "as a lost entry (%s)" % json.dumps(st)[:1500])
 
+    phases["vacuity+selftest"] = round(time.time() - t1 - phases["driver+models"], 1)
     # 4. verdicts from the real observables
     ninc, stats = judge(rep, prop, results, scripts, common)
     if len(results) != len(scripts):
@@ -276,7 +282,15 @@ def run(prop, tier, seed, replay=None):
     # 5. recorded traces of the real code are validated by TLC against the specification
     good = [r for r in results if r.get("trace") and not r.get("error")]
     traces = [abstract_trace(r["trace"]) for r in good]
+    t2 = time.time()
     acc, rej = vlib.validate_traces("TraceDiscovery", "Discovery.trace.cfg", traces, timeout=1500)
+    phases["trace_validation"] = round(time.time() - t2, 1)
+    dbg = os.environ.get("VERIF_C16_DEBUG")
+    if dbg:
+        os.makedirs(dbg, exist_ok=True)
+        for x in rej:
+            r = good[x["index"]]
+            json.dump(dict(script=scripts[r["id"]], result=r, rejected=x), open(os.path.join(dbg, r["id"] + ".json"), "w"), indent=1)
     for x in rej[:5]:
         rep.notes.append("DRIFT: trace of %s rejected at event %s (%s)" % (good[x["index"]]["id"], json.dumps(x["event"])[:300], x["kind"]))
     for x in rej:
@@ -302,7 +316,7 @@ def run(prop, tier, seed, replay=None):
                polls_with_a_commit_between_the_two_statements_of_get=stats["races"],
                steps_deferred_because_code_blocked=stats["deferred"], drift_notes=stats["drift"], inconclusive_scripts=ninc,
                oracle_selftest_scripts_caught=len(caught),
-               known_findings_reproduced=sorted(rep.known), action_coverage=cover, exhaustive=False,
+               known_findings_reproduced=sorted(rep.known), phases_s=phases, action_coverage=cover, exhaustive=False,
                concrete_defect_classes=len(set(REG_BAD) | set(RET_BAD)) + 4,
                rule="TLC exhausts the prescriptive Discovery model (invariants ListedOnlyVerified, OneLiveEntryPerSubject, TimestampsUnique, "
                     "SearchSound, Converged; action properties TimestampsStrictlyIncrease, RetractionOnlyBySigner; liveness Converges under "
